@@ -20,6 +20,7 @@ pub fn def() -> PropDef {
         thorough_runs: 2_000_000,
         block: 1,
         flavours: &["tokio"],
+        outcome: None,
     }
 }
 
